@@ -27,7 +27,8 @@
 
    A publisher given with two addresses (cfg.addrs = 2, plain HTTP): a request that fails at transport level
    (connection reset, no answer within the timeout) is repeated on the next address, and the rest of the sync
-   stays there; the faults of the plan sit on the first address.  The next sync starts at the first address again.
+   stays there -- and so do the later syncs, for as long as the subscriber keeps that publisher's sync client; the faults of
+   the plan sit on the first address.
 
    FIXED = FALSE additionally models the pinned Syncer.fetch: in plain-HTTP mode a 404/403
    latches noPath, and every later request of that Syncer goes to the path-less URL (and fails
@@ -44,7 +45,7 @@ BodyKinds == {"bitflip", "truncated", "appended", "other", "empty", "oversized"}
 VARIABLES cfg,        \* [mode, trigger, seg, faults: Seq of [at, kind]]
           phase,      \* index of the sync being run (Len(faults) + 1 = the clean one)
           pc, b, req, segblocks, segleft,
-          over,       \* this sync has failed over to the publisher's second address
+          over,       \* the publisher's sync client has given up the first address and uses the second
           ctxdead,    \* the caller's context was cancelled by a block hook of this sync
           store,      \* set of [cid, body]
           latest, cached, noPath,
@@ -86,17 +87,22 @@ StoredCids == {e.cid : e \in store}
 
 (* Finishing a sync: record what is observable and move to the next sync. *)
 Obs(result, evs) == [result |-> result, reported |-> rep, stored |-> StoredCids, latest |-> latest', events |-> evs, noPath |-> noPath']
-EndSync(result, evs) ==
+(* The subscriber keeps a publisher's sync client while the publisher's addresses are unchanged, and the client does not go back
+   to an address it has given up: `over` outlives the sync.  A request that fails at transport level because the caller's
+   context was cancelled gives the first address up as well (the repeat on the second address fails on the same context).     *)
+EndSyncO(result, evs, ov) ==
   /\ log' = Append(log, Obs(result, evs))
   /\ phase' = phase + 1 /\ pc' = IF phase + 1 > Len(cfg.faults) + 1 THEN "done" ELSE "start"
-  /\ b' = 0 /\ req' = 0 /\ segblocks' = <<>> /\ segleft' = 0 /\ rep' = <<>> /\ over' = FALSE /\ ctxdead' = FALSE
+  /\ b' = 0 /\ req' = 0 /\ segblocks' = <<>> /\ segleft' = 0 /\ rep' = <<>> /\ over' = ov /\ ctxdead' = FALSE
+EndSync(result, evs) == EndSyncO(result, evs, over)
+Burns(k) == cfg.addrs = 2 /\ ~noPath /\ ~over /\ k = "cancel"
 
 Fail(k) ==    \* the sync ends with an error
   /\ noPath' = (noPath \/ (~FIXED /\ cfg.mode = "plain" /\ k \in {"s404", "s403"}))
   /\ UNCHANGED <<latest, store>>
   /\ IF cfg.trigger = "announce"
-     THEN cached' = FALSE /\ EndSync("error", <<[cid |-> N, err |-> TRUE, count |-> 0]>>)
-     ELSE UNCHANGED cached /\ EndSync("error", <<>>)
+     THEN cached' = FALSE /\ EndSyncO("error", <<[cid |-> N, err |-> TRUE, count |-> 0]>>, over \/ Burns(k))
+     ELSE UNCHANGED cached /\ EndSyncO("error", <<>>, over \/ Burns(k))
 
 Start ==
   /\ pc = "start"
@@ -110,11 +116,11 @@ Start ==
              THEN (* request 1: the head query *)
                   IF noPath \/ (FaultAt(1) # "ok" /\ ~FailsOver(FaultAt(1)))
                   THEN /\ noPath' = (noPath \/ (~FIXED /\ cfg.mode = "plain" /\ FaultAt(1) \in {"s404", "s403"}))
-                       /\ UNCHANGED <<latest, store>> /\ EndSync("error", <<>>)
+                       /\ UNCHANGED <<latest, store>> /\ EndSyncO("error", <<>>, over \/ Burns(FaultAt(1)))
                   ELSE IF latest = N
-                  THEN UNCHANGED <<latest, store, noPath>> /\ EndSync("ok", <<>>)      \* head = latest: nothing to do
+                  THEN UNCHANGED <<latest, store, noPath>> /\ EndSyncO("ok", <<>>, over \/ FailsOver(FaultAt(1)))      \* head = latest: nothing to do
                   ELSE /\ req' = 1 /\ b' = N /\ pc' = "fetch" /\ segleft' = cfg.seg /\ segblocks' = <<>>
-                       /\ over' = FailsOver(FaultAt(1))        \* the head query was repeated on the second address
+                       /\ over' = (over \/ FailsOver(FaultAt(1)))        \* the head query was repeated on the second address
                        /\ UNCHANGED <<phase, store, latest, noPath, rep, log, ctxdead>>
              ELSE /\ req' = 0 /\ b' = N /\ pc' = "fetch" /\ segleft' = cfg.seg /\ segblocks' = <<>>
                   /\ UNCHANGED <<phase, store, latest, noPath, rep, log, over, ctxdead>>
@@ -156,7 +162,7 @@ NextBlock ==
                   /\ log' = Append(log, [result |-> "error", reported |-> rep \o segblocks, stored |-> StoredCids, latest |-> latest,
                                          events |-> IF cfg.trigger = "announce" THEN <<[cid |-> N, err |-> TRUE, count |-> 0]>> ELSE <<>>, noPath |-> noPath])
                   /\ cached' = (IF cfg.trigger = "announce" THEN FALSE ELSE cached)
-                  /\ phase' = phase + 1 /\ pc' = "start" /\ b' = 0 /\ req' = 0 /\ segblocks' = <<>> /\ segleft' = 0 /\ over' = FALSE /\ ctxdead' = FALSE
+                  /\ phase' = phase + 1 /\ pc' = "start" /\ b' = 0 /\ req' = 0 /\ segblocks' = <<>> /\ segleft' = 0 /\ UNCHANGED over /\ ctxdead' = FALSE
              ELSE IF more
              THEN /\ rep' = rep \o segblocks /\ segblocks' = <<>> /\ b' = b - 1 /\ segleft' = cfg.seg /\ pc' = "fetch"
                   /\ ctxdead' = (ctxdead \/ CancellingHook)
@@ -166,7 +172,7 @@ NextBlock ==
                   /\ log' = Append(log, [result |-> "ok", reported |-> rep \o segblocks, stored |-> StoredCids, latest |-> N,
                                          events |-> <<[cid |-> N, err |-> FALSE, count |-> Len(rep \o segblocks)]>>, noPath |-> noPath])
                   /\ phase' = phase + 1 /\ pc' = IF phase + 1 > Len(cfg.faults) + 1 THEN "done" ELSE "start"
-                  /\ b' = 0 /\ req' = 0 /\ segblocks' = <<>> /\ segleft' = 0 /\ rep' = <<>> /\ over' = FALSE /\ ctxdead' = FALSE
+                  /\ b' = 0 /\ req' = 0 /\ segblocks' = <<>> /\ segleft' = 0 /\ rep' = <<>> /\ UNCHANGED over /\ ctxdead' = FALSE
 
 Next == Start \/ Fetch \/ NextBlock
 Spec == Init /\ [][Next]_vars
